@@ -673,7 +673,10 @@ class DcmMetaExtension(Nifti1Extension):
         return result
 
     def __str__(self):
-        return self._mangle(self._content)
+        result = self._mangle(self._content)
+        if not PY2:
+            result = result.decode('utf-8')
+        return result
 
     def __eq__(self, other):
         if not np.allclose(self.affine, other.affine):
